@@ -369,11 +369,16 @@ def kinds_gen(tier):
                 if inplace and combo[0] in ("var", "elem", "item"):
                     tl = types[0].lower()
                     root = {"var": "K%s0" % tl.upper(), "elem": "KT%s" % tl.upper(), "item": "KR%s" % tl.upper()}[combo[0]]
-                ops = [op_ctx(), op_run(pre), op_dump(), op_run("print %s;" % ref), op_out(), op_dump(),
-                       op_run("print %s;" % e), op_out(), op_dump(),
-                       op_run("for kq in 1 to 2 loop print %s; end loop;" % e), op_out(), op_dump()]
-                yield Case("k%d" % n, ops, {"kind": "kinds", "e": e, "ref": ref, "root": root, "sig": fmt % tuple(types), "combo": "/".join(combo)})
-                n += 1
+                variants = [(e, ref, "")]
+                if not inplace:
+                    # an in-place method chained on the result works on the result, never on an operand the result was taken from
+                    variants.append(('(%s).concat("!")' % e, '(%s).concat("!")' % ref, "+concat"))
+                for e2, ref2, suffix in variants:
+                    ops = [op_ctx(), op_run(pre), op_dump(), op_run("print %s;" % ref2), op_out(), op_dump(),
+                           op_run("print %s;" % e2), op_out(), op_dump(),
+                           op_run("for kq in 1 to 2 loop print %s; end loop;" % e2), op_out(), op_dump()]
+                    yield Case("k%d" % n, ops, {"kind": "kinds", "e": e2, "ref": ref2, "root": root, "sig": fmt % tuple(types) + suffix, "combo": "/".join(combo)})
+                    n += 1
     return gen
 
 
